@@ -1108,7 +1108,11 @@ func (mpt *MerklePatriciaTrie) MergeMPTChanges(mpt2 MerklePatriciaTrieI) error {
 	defer mpt.mutex.Unlock()
 	db, ok := mpt.db.(*LevelNodeDB)
 	if ok {
-		db.version = newLNDB.version
+		// the store's version is read under the store's own mutex (GetDBVersion)
+		newVersion := newLNDB.GetDBVersion()
+		db.mutex.Lock()
+		db.version = newVersion
+		db.mutex.Unlock()
 	} else {
 		Logger.Warn("MergeMPTChanges - mpt db is not *LevelNodeDB",
 			zap.Int64("version", int64(mpt.GetVersion())))
